@@ -92,6 +92,30 @@ def gen_graph_scenario(rng: random.Random, nnodes=None, nuser=None, recurse_bias
             ops.append(["reg", child, rng.randrange(ndefs)])
         ops += [["call", child, [a], []], ["call", child, [a], []], ["call", root, [a], []], ["call", child, [a], []], ["call", root, [a], []]]
         nn += 2
+    if rng.random() < 0.3:
+        # a chain of derived functions none of which has been used yet: the root may still change (with or without
+        # linkback), and every function below it — two and three levels down — must see the change at its first use
+        root = nn
+        ops.append(["create", [], False])
+        picks = rng.sample(range(ndefs), min(ndefs, 4))
+        for d in picks[:2]:
+            ops.append(["reg", root, d])
+        chain = [root]
+        for depth in range(rng.choice([2, 2, 3])):
+            ops.append(["create", [chain[-1]], rng.random() < 0.5])
+            chain.append(nn + 1 + depth)
+            if rng.random() < 0.7:
+                ops.append(["reg", chain[-1], rng.choice(picks)])
+        nn += len(chain)
+        if len(picks) > 2 and rng.random() < 0.7:
+            ops.append(["reg", root, picks[2]])
+        else:
+            ops.append(["unreg", root, picks[0]])
+        if len(picks) > 3 and rng.random() < 0.5:
+            ops.append(["reg", chain[1], picks[3]])
+        for a in rng.sample(range(len(args)), min(len(args), 3)):
+            for n in reversed(chain):
+                ops.append(["call", n, [a], []])
     alltys = []
     for d in defs:
         for p in d["params"]:
